@@ -33,6 +33,8 @@ type compiler struct {
 	program *ast.Program
 	curStmt ast.Statement
 	inCheck bool
+	// how many calls of functions defined in the template are being evaluated
+	inFunc int
 	// what the roots of hanging paths (the rest of x[i].rest and f().rest)
 	// stand for while those paths are evaluated, see bind
 	bound map[*ast.Identifier]interface{}
@@ -225,7 +227,11 @@ func (c *compiler) evalUserFunction(node *userFunction, args []ast.Expression) (
 	}
 
 	octx := c.ctx
-	defer func() { c.ctx = octx }()
+	c.inFunc++
+	defer func() {
+		c.ctx = octx
+		c.inFunc--
+	}()
 
 	c.ctx = c.ctx.New()
 	for i, p := range node.params {
@@ -1151,6 +1157,10 @@ func (c *compiler) evalForExpression(node *ast.ForExpression) (interface{}, erro
 			case breakObject:
 				breakLoop = true
 				res = val.Value
+			case returnObject:
+				if c.inFunc > 0 {
+					return returnFromLoop(ret, val), nil
+				}
 			}
 
 			if res != nil {
@@ -1179,6 +1189,10 @@ func (c *compiler) evalForExpression(node *ast.ForExpression) (interface{}, erro
 			case breakObject:
 				breakLoop = true
 				res = val.Value
+			case returnObject:
+				if c.inFunc > 0 {
+					return returnFromLoop(ret, val), nil
+				}
 			}
 
 			if res != nil {
@@ -1212,6 +1226,10 @@ func (c *compiler) evalForExpression(node *ast.ForExpression) (interface{}, erro
 				case breakObject:
 					breakLoop = true
 					res = val.Value
+				case returnObject:
+					if c.inFunc > 0 {
+						return returnFromLoop(ret, val), nil
+					}
 				}
 
 				if res != nil {
@@ -1230,6 +1248,24 @@ func (c *compiler) evalForExpression(node *ast.ForExpression) (interface{}, erro
 		return ret, fmt.Errorf("could not iterate over %T", iter)
 	}
 	return ret, nil
+}
+
+// returnFromLoop is what a loop inside a function defined in the template yields
+// when its body reached a return: the return ends the loop and, carried on as a
+// returnObject, the call. What earlier iterations rendered goes before it, as in
+// a block. (Outside a function, return in a loop body emits a value per
+// iteration.)
+func returnFromLoop(ret []interface{}, ro returnObject) returnObject {
+	out := []interface{}{}
+	for _, r := range ret {
+		if s, ok := r.([]interface{}); ok && len(s) == 0 {
+			continue
+		}
+
+		out = append(out, r)
+	}
+
+	return returnObject{Value: append(out, ro)}
 }
 
 func (c *compiler) evalBlockStatement(node *ast.BlockStatement) (interface{}, error) {
